@@ -984,6 +984,7 @@ func (node *Node) checkTxDelays(ctx context.Context) {
 		if !node.state.IsReady() {
 			continue
 		}
+		verifPoint("delay.loop")
 
 		// Get newly safe txs
 		cutoffTime := time.Now().Add(time.Millisecond * -time.Duration(node.config.SafeTxDelay))
